@@ -29,6 +29,8 @@ import gen_nest  # noqa: E402
 LEVEL = "exploration"
 DYN = os.path.join(HERE, "dyn.cpp")
 MISC = os.path.join(HERE, "misc.cpp")
+SWAPX = os.path.join(HERE, "swapx.cpp")
+NSWAPX = 4   # swapx.cpp is built as 4 programs (-DSWAPX_PART): {closure/proxy_wrapper, xcomplex, bitset references, optional-sequence proxies}, optional, masked_value, bit-reference flags
 GEN = os.path.join(vlib.BUILD, "C07")
 NKINDS = 13
 KIND_NAMES = ["closure", "const_closure", "closure_pointer", "const_closure_pointer", "proxy_wrapper", "optional(v,flag&)", "optional(v,flag&&)",
@@ -48,9 +50,14 @@ def build_misc(std="c++14"):
     return vlib.compile_cxx(MISC, "c07-misc-%s" % std.replace("+", "x"), std=std, opt="-O0", san="asan", flags=["-I" + HERE])
 
 
+def build_swapx(part, std="c++14"):
+    return vlib.compile_cxx(SWAPX, "c07-swapx%d-%s" % (part, std.replace("+", "x")), std=std, opt="-O0", san="asan", flags=["-I" + HERE],
+                            defines=["SWAPX_PART=%d" % part])
+
+
 def build_failure(ctx, kind, std, ex):
     """the committed operations of a wrapper kind no longer compile against the tree: the mapping does not exist for them"""
-    name = KIND_NAMES[kind] if kind >= 0 else "bitset-reference+forward_sequence"
+    name = "swap-kinds-part%d" % (kind - 100) if kind >= 100 else KIND_NAMES[kind] if kind >= 0 else "bitset-reference+forward_sequence"
     errs = [l.strip() for l in str(ex).splitlines() if "error" in l and "HarnessError" not in l]
     first = errs[0][-500:] if errs else str(ex)[-500:]
     ctx.violation("C07/%s/build/ill-formed" % name,
@@ -98,7 +105,15 @@ def run_dynamic(ctx, maxlen, bit_len, stds):
         except vlib.HarnessError as ex:
             build_failure(ctx, -1, "c++14", ex)
 
-    vlib.parallel([mk(k, s) for s in stds for k in range(NKINDS)] + [mkmisc])
+    def mkswapx(part, std):
+        def b():
+            try:
+                bins[("swapx", part, std)] = build_swapx(part, std)
+            except vlib.HarnessError as ex:
+                build_failure(ctx, 100 + part, std, ex)
+        return b
+
+    vlib.parallel([mk(k, s) for s in stds for k in range(NKINDS)] + [mkmisc] + [mkswapx(p, s) for s in stds for p in range(NSWAPX)])
 
     nsh = 8 if bit_len >= 4 else 2
     for k in range(nsh if "misc" in bins else 0):
@@ -107,6 +122,19 @@ def run_dynamic(ctx, maxlen, bit_len, stds):
     if "misc" in bins:
         jobs.append(guarded("swap under aliasing", lambda: ctx.run_harness(bins["misc"], ["--part", "swapalias"], env=ENV, tag="misc")))
         jobs.append(guarded("forward_sequence", lambda: ctx.run_harness(bins["misc"], ["--part", "fwdseq"], env=ENV, tag="misc")))
+    # swap over every referent-designating wrapper / proxy kind (NOTES.md section 12): one job per family of each program
+    for std in stds:
+        for part in range(NSWAPX):
+            if ("swapx", part, std) not in bins:
+                continue
+            binary = bins[("swapx", part, std)]
+            r = subprocess.run([binary, "--list"], stdout=subprocess.PIPE, stderr=subprocess.PIPE, text=True, timeout=60)
+            if r.returncode != 0:
+                raise vlib.HarnessError("cannot list the families of %s: %s" % (binary, r.stderr[-500:]))
+            for fam in r.stdout.split():
+                jobs.append(guarded("swap kinds: %s (%s)" % (fam, std),
+                                    lambda binary=binary, part=part, fam=fam, std=std: ctx.run_harness(
+                                        binary, ["--swapx", str(part), "--family", fam] + (["--deep"] if ctx.tier != "quick" else []), env=ENV, tag="swapx-" + std)))
     for std in stds:
         for kind in range(NKINDS):
             if (kind, std) not in bins:
@@ -521,12 +549,17 @@ def replay(ctx, rec):
     if args and args[0] == "build":
         kind, std = int(args[1]), args[2]
         try:
-            build_dyn(kind, std) if kind >= 0 else build_misc(std)
+            build_swapx(kind - 100, std) if kind >= 100 else build_dyn(kind, std) if kind >= 0 else build_misc(std)
         except vlib.HarnessError as ex:
             build_failure(ctx, kind, std, ex)
         return
     if "--part" in args:
         ctx.run_harness(build_misc(), args, env=ENV, tag="misc")
+        return
+    if args and args[0] == "--swapx":
+        h = rec.get("harness") or ""
+        std = h.split("-", 1)[1] if h.startswith("swapx-") else "c++14"
+        ctx.run_harness(build_swapx(int(args[1]), std), args, env=ENV, tag=h or "swapx-c++14")
         return
     kind = int(args[args.index("--kind") + 1])
     std = "c++14"
